@@ -141,15 +141,18 @@ def setW (s : St) (w : Nat) (r : WLp) : St := { s with wl := s.wl.set w r }
 def setF (s : St) (f : Nat) (r : WFarm) : St := { s with wf := s.wf.set f r }
 
 /-- a user pays `x` of wrapped LP nonce `w`; the proxy burns it and takes the pro-rata locked
-    tokens out of its reserve.  Returns the record and the locked part. -/
-def takeW (s : St) (w x : Nat) : Option (St × WLp × Nat) := do
+    tokens out of its reserve.  Returns the record and the locked part.  `orphan = true`: the
+    wrapped LP tokens are not burned but stay in the proxy, unreferenced (the wrapped LP of the
+    virtual position in `enterFarmProxy` with merging). -/
+def takeW (s : St) (w x : Nat) (orphan : Bool := false) : Option (St × WLp × Nat) := do
   let r ← s.wl[w]?
   req (0 < x)
   let c ← sub? r.circ x
   let p ← part r.locked r.total x
   let rem ← sub? r.rem p
   let lk ← s.lk.sub? r.k p
-  pure ({ setW s w { r with circ := c, rem := rem } with lk := lk }, r, p)
+  pure ({ setW s w { r with circ := c, rem := rem, orph := if orphan then r.orph + x else r.orph }
+          with lk := lk }, r, p)
 
 /-- what happens to the proxy-farming part of a wrapped farm token that is being redeemed -/
 inductive Mode
@@ -246,16 +249,6 @@ def addStray (s : St) : List LkTok → St
   | [] => s
   | t :: ts => addStray { learn s t with lk := s.lk.add t.k t.amt } ts
 
-/-- `x` of wrapped LP nonce `w` held by the proxy is taken apart and left behind (the wrapped
-    LP of the virtual position in `enterFarmProxy` with merging) -/
-def dissolveW (s : St) (w x : Nat) : Option St := do
-  let rw ← s.wl[w]?
-  let h ← sub? rw.held x
-  let q ← part rw.locked rw.total x
-  let rem ← sub? rw.rem q
-  let lk ← s.lk.sub? rw.k q
-  pure { setW s w { rw with held := h, rem := rem, orph := rw.orph + x } with lk := lk }
-
 /-- take several wrapped LP payments (merge inputs); returns the total amount paid -/
 def takeWs (s : St) : List (Nat × Nat) → Option (St × Nat)
   | [] => some (s, 0)
@@ -340,16 +333,17 @@ def enterW (s : St) (farm w a : Nat) (merge : List (Nat × Nat)) (ft : Nat × Na
   let c ← sub? r.circ a
   let _q ← part r.locked r.total a
   let lp ← sub? s.lp a
-  let s0 : St := learnOpt { setW s w { r with circ := c, held := r.held + a } with lp := lp } rew
   match merge with
   | [] =>
+      let s0 : St := learnOpt { setW s w { r with circ := c, held := r.held + a } with lp := lp } rew
       let (s1, n) := newF s0 farm ft.1 ft.2 .wlp w a
       pure (s1, { fOut := (n, ft.2), rew := rewOf rew, newF := n })
   | _ => do
       let (mf, t) ← m
-      let (s1, sp) ← takeFs s0 farm .wlp merge
-      let s2 ← dissolveW s1 w a
-      let (s3, nw) := newW (learn s2 t) (a + sp) t.k t.amt false
+      -- the wrapped LP of the new position is taken apart like the merged ones and stays in the proxy
+      let (s0, _, _) ← takeW s w a true
+      let (s1, sp) ← takeFs (learnOpt { s0 with lp := lp } rew) farm .wlp merge
+      let (s3, nw) := newW (learn s1 t) (a + sp) t.k t.amt false
       let (s4, n) := newF s3 farm mf.1 mf.2 .wlp nw (a + sp)
       pure (addStray s4 stray, { fOut := (n, mf.2), rew := rewOf rew, newW := nw, newF := n })
 
